@@ -35,6 +35,22 @@ def mutate_leaf(rng, t, depth, d):
     return t
 
 
+def revalue(rng, t, d):
+    """the same tree with some leaf values redrawn (explicit defaults become values and back): what in-place writes through references can reach"""
+    t = copy.deepcopy(t)
+    changed = [False]
+    def walk(f):
+        for x in f["e"]:
+            if x[1]["k"] == "F":
+                walk(x[1])
+            elif x[1]["k"] == "L" and rng.random() < 0.6:
+                nv = rng.choice([v for v in (d, d, 1, 2, 3) if v != x[1]["v"]])
+                x[1]["v"] = nv
+                changed[0] = True
+    walk(t)
+    return t if changed[0] else None
+
+
 def run(ctx):
     jobs = [("d1", 3, 1, 2, 0), ("d2", 2, 2, 1, 0), ("d1nz", 3, 1, 1, 1)]
     with cf.ThreadPoolExecutor(3) as ex:
@@ -68,11 +84,17 @@ def run(ctx):
         if c["d"] != 0 and c["emb_a"] == "tensor" and c["emb_b"] == "tensor" and ctx.rng.random() < 0.5:
             # the default declared by the tensor's leaf rank differs from the one the fibers were built with
             cases.append(dict(c, latedflt=1))
+    # asked - changed in place through payload references - asked again (answers must follow the current content, nothing remembered from the first pass)
+    for c in list(cases):
+        if not c.get("latedflt") and ctx.rng.random() < 0.3:
+            a2 = revalue(ctx.rng, c["a"], c["d"])
+            if a2 is not None:
+                cases.append(dict(c, a2=a2))
     for c in list(cases):
         if c["d"] == 0 and ctx.rng.random() < (0.35 if ctx.quick else 0.6):
             cases.append(dict(c, vmap=ctx.rng.choice(["floatzero", "big", "nearfloats", "negative"])))
     part = family.run_family(ctx, "C12", cases, "harness.exec_eq", "EqTrace.tla", "EqTrace.cfg",
-                             op_of=lambda c, lg, st: "eq", where_of=lambda c, lg, st: f"depth{c['depth']}:{c['emb_a']}-{c['emb_b']}:d{c['d']}" + (":" + c["vmap"] if c.get("vmap") else "") + (":latedflt" if c.get("latedflt") else ""),
+                             op_of=lambda c, lg, st: "eq", where_of=lambda c, lg, st: f"depth{c['depth']}:{c['emb_a']}-{c['emb_b']}:d{c['d']}" + (":" + c["vmap"] if c.get("vmap") else "") + (":latedflt" if c.get("latedflt") else "") + (":requery" if c.get("a2") else ""),
                              nontrivial=lambda c, lg: bool(c["a"]["e"]) or bool(c["b"]["e"]))
     res = {"design": design, "states": states, "transitions": states, "exhaustive": False,
            "rule": "a case is a pair (triple) of trees with an embedding; ==, !=, reflexive/copy equality, isEmpty, countValues, nonEmpty are executed on the "
